@@ -6,7 +6,11 @@ sys.path.insert(0, ROOT); sys.path.insert(0, os.path.join(ROOT, "lib"))
 base = json.load(open(os.path.join(ROOT, "tools", "manifest_base.json")))
 props = [json.loads(l)["id"] for l in open(os.path.join(ROOT, "properties.jsonl"))]
 checks, claimed = [], []
+# only properties the lead has reviewed and run clean are claimed
+approved = set(open(os.path.join(ROOT, "tools", "claimed.txt")).read().split())
 for pid in props:
+    if pid not in approved:
+        continue
     path = os.path.join(ROOT, "props", pid.lower() + ".py")
     if not os.path.exists(path):
         continue
